@@ -229,7 +229,86 @@ def check_arbitrary_string(rep, g):
                'case mapping is longer (e.g. U+00DF) makes try_new reject the generated value and arbitrary panic',
                {'sanitizers': kinds, 'len_char_max': mx},
                site='string Arbitrary ignores case mappings that grow the character count (case sanitizer + len_char_max)')
+    check_string_measure_agreement(rep, g, fn, outs, G)
     rep.sample({'decl': decl_key(d), 'target_len': [ga, gb], 'valid_len': [mn, mx]})
+
+
+def measured_string(ex, m):
+    """m = count(chars(view(Y))): returns (root term of Y, [length-relevant ops applied to the root, in order])"""
+    from .rules import str_method, is_owning_copy
+    if not (m[0] == 'call' and cname(ex, m) == 'count' and len(m[2]) == 1):
+        return None
+    inner = m[2][0]
+    if not (inner[0] == 'call' and str_method(ex, inner, 'chars') and len(inner[2]) == 1):
+        return None
+    y = strip_view(ex, inner[2][0])
+    ops = []
+    for _ in range(32):
+        if y[0] == 'call' and len(y[2]) == 1:
+            if str_method(ex, y, 'trim'):
+                ops.append('trim')
+            elif str_method(ex, y, 'trim_end') or str_method(ex, y, 'trim_start'):
+                ops.append(cname(ex, y))
+            elif str_method(ex, y, 'to_lowercase'):
+                ops.append('lowercase')
+            elif str_method(ex, y, 'to_uppercase'):
+                ops.append('uppercase')
+            elif is_owning_copy(ex, y) or cname(ex, y) in ('clone', 'into', 'to_string', 'to_owned'):
+                pass
+            else:
+                break
+            y = strip_view(ex, y[2][0])
+            continue
+        break
+    return y, list(reversed(ops))
+
+
+def check_string_measure_agreement(rep, g, fn, outs, G):
+    """R-ARB-STR-MEASURE: the quantity the refill loop drives to target_len is the quantity the length validators
+    measure (same string, same trimming). Case mappings are the separately recorded finding."""
+    d = g.d
+    ex = g.ex
+    has_len = any(v['kind'] in ('len_char_min', 'len_char_max', 'not_empty') for v in d['validators'])
+    if not has_len or 'trim' not in [s['kind'] for s in d['sanitizers']]:
+        return
+    tl = ('field', ('downcast', G, 0, 'Ok'), 0)
+    seen = 0
+    for o in outs:
+        if o.kind not in ('return', 'diverge'):
+            continue
+        loop_m = None
+        val_ms = []
+        for c, v in o.conds:
+            if c[0] == 'discr' and c[1][0] == 'call' and cname(ex, c[1]) == 'cmp' and len(c[1][2]) == 2 and v == 0:
+                a, b = strip_view(ex, c[1][2][0]), strip_view(ex, c[1][2][1])
+                if b == tl:
+                    loop_m = a
+                elif a == tl:
+                    loop_m = b
+            cc = c
+            while cc[0] == 'un':
+                cc = cc[2]
+            if cc[0] == 'bin' and cc[1] in OPSET:
+                for side in (cc[2], cc[3]):
+                    ms = measured_string(ex, side)
+                    if ms is not None and side != loop_m:
+                        val_ms.append(ms)
+        if loop_m is None or not val_ms:
+            continue
+        lm = measured_string(ex, loop_m)
+        if lm is None:
+            rep.ob('R-ARB-STR', None, g, 'refill loop exit condition does not measure a char count', {'term': show(loop_m)[:200]})
+            continue
+        seen += 1
+        for (root, ops) in val_ms[:1]:
+            same_root = root == lm[0]
+            l_ops = [x for x in lm[1] if x not in ('lowercase', 'uppercase')]
+            v_ops = [x for x in ops if x not in ('lowercase', 'uppercase')]
+            rep.ob('R-ARB-STR', same_root and l_ops == v_ops, g,
+                   'the refill loop controls the char count of the same (equally trimmed) string that the length validators measure',
+                   {'loop_measures': {'ops': lm[1], 'root': show(lm[0])[:120]}, 'validators_measure': {'ops': ops, 'root': show(root)[:120]}})
+    if seen == 0:
+        rep.ob('R-ARB-STR', None, g, 'no path through the refill loop exit was found; measure agreement not decided', {})
 
 
 # ----------------------------------------------------------------------------- floats
